@@ -58,6 +58,17 @@ func (r *recvRecorder) before(s *sim, ev *simEvent) {
 		r.skipped["bad-tag"]++
 		return
 	}
+	held := 0
+	for _, st := range a.streams {
+		held += st.getNumBytesInReassemblyQueue()
+	}
+	for _, c := range data {
+		held += len(c.userData)
+	}
+	if held > 5000 { // every payload byte is printed: keep records small (see after)
+		r.skipped["large"]++
+		return
+	}
 	acceptOK := len(a.acceptCh) < cap(a.acceptCh)
 	lines := []string{fmt.Sprintf("load %d %d %d %s", a.maxReceiveBufferSize, a.maxReassemblyQueueEntries,
 		b2i(a.useInterleaving), e2eStateStringDups(a, false))}
@@ -81,6 +92,16 @@ func (r *recvRecorder) after(s *sim, ev *simEvent) {
 	a.lock.RUnlock()
 	if !ok {
 		r.skipped["state-changed"]++
+		return
+	}
+	// the dumps print every payload byte; records of associations holding large messages are left out
+	// (the bare-association differential covers large buffers), the rest stays a few kB per record
+	size := len(post)
+	for _, l := range r.pending {
+		size += len(l)
+	}
+	if size > 24000 {
+		r.skipped["large"]++
 		return
 	}
 	r.mu.Lock()
@@ -114,6 +135,6 @@ func TestVerifSimRecv(t *testing.T) {
 		st.scenarios++
 		st.fails += len(fails)
 	}
-	fmt.Printf("SIMRECV scenarios=%d records=%d chunks=%d skipped_other_chunk=%d skipped_not_established=%d skipped_state_changed=%d skipped_bad_tag=%d monitor_fails=%d\n",
-		st.scenarios, cnt, chunks, skipped["other-chunk-in-packet"], skipped["not-established"], skipped["state-changed"], skipped["bad-tag"], st.fails)
+	fmt.Printf("SIMRECV scenarios=%d records=%d chunks=%d skipped_other_chunk=%d skipped_not_established=%d skipped_state_changed=%d skipped_bad_tag=%d skipped_large_dump=%d monitor_fails=%d\n",
+		st.scenarios, cnt, chunks, skipped["other-chunk-in-packet"], skipped["not-established"], skipped["state-changed"], skipped["bad-tag"], skipped["large"], st.fails)
 }
